@@ -72,6 +72,9 @@ MapElemsProg == <<Ob(Fl(Fl(Var(A), "map", <<Lit(Str(B_size))>>), "join", <<Lit(S
                   [t |-> "for", tag |-> "for", var |-> <<105>>, coll |-> Var(A), body |-> <<Ob(P(Var(<<105>>), B_size)), T(<<44>>)>>], Bar,
                   Ob(Fl(Fl(Fl(Var(A), "map", <<Lit(Str(JJ))>>), "compact", <<>>), "size", <<>>)), Bar, Ob(P(Ix(Var(A), Lit(IntV(1))), B_size)), Bar,
                   Ob(Fl(Fl(Fl(Var(A), "sort", <<Lit(Str(KK))>>), "map", <<Lit(Str(KK))>>), "join", <<Lit(Str(<<44>>))>>))>>
+\* records sorted by a key whose values are held directly, as Drops (one of them a Drop of nil) or through pointers
+SortKeyProg == <<Ob(Fl(Fl(Fl(Var(A), "sort", <<Lit(Str(KK))>>), "map", <<Lit(Str(JJ))>>), "join", <<Lit(Str(<<44>>))>>)), Bar,
+                 Ob(Fl(Fl(Fl(Fl(Var(A), "reverse", <<>>), "sort", <<Lit(Str(KK))>>), "map", <<Lit(Str(JJ))>>), "join", <<Lit(Str(<<44>>))>>))>>
 EmptyWsProg == <<T(<<91, 97, 32, 32>>), Ob(Var(S0)), [t |-> "trimL"], Ob(Lit(Str(<<67>>))), T(<<93, 91>>), Ob(Lit(Str(<<67>>))), [t |-> "trimR"], Ob(Var(S0)), T(<<32, 32, 122, 93, 91, 32>>),
                  [t |-> "trimL"], Ob(Var(S0)), [t |-> "trimR"], T(<<32, 120, 93>>)>>
 StrWsProg == <<T(<<91>>), Ob(Var(A)), [t |-> "trimL"], Ob(Lit(Str(<<120>>))), T(<<124>>), Ob(Lit(Str(<<121>>))), [t |-> "trimR"], Ob(Var(A)), T(<<124>>),
@@ -155,6 +158,7 @@ Cases ==
   \* a map with a size key that holds nil: the key wins over the entry count, in every representation
   \cup [g : {"mapsz"}, r : {"", "mapslice", "drop", "ptr", "anystrkeys", "ptrmapslice"}]
   \cup [g : {"mapelems"}, r : {"", "array3", "drop"}, e0 : MapElemReprs, e1 : MapElemReprs]
+  \cup [g : {"sortkey"}, h0 : {"", "drop", "ptr"}, h1 : {"", "drop"}, h2 : {"", "drop", "ptr"}, ty : {1, 2}]
   \cup [g : {"bytes"}, r : {"", "bytes", "drop", "ptr"}]
   \cup [g : {"ptr"}, r : {"", "ptr", "ptrptr"}, mr : {"", "ptr", "ptrptr"}]
   \cup [g : {"drop"}, bits : IF Full THEN 0..511 ELSE {0, 511} \cup {2^i : i \in 0..8} \cup {511 - 2^i : i \in 0..8}]
@@ -171,7 +175,7 @@ ProgOf(x) ==
     [] x.g = "nilseq" -> <<NilSeqProbes[x.p]>>
     [] x.g = "shared" -> <<SharedProbes[x.p]>>
     [] x.g \in {"num", "numf"} -> NumProg [] x.g = "flt" -> FltProg [] x.g = "seq" -> SeqProg [] x.g = "strseq" -> StrSeqProg [] x.g = "strws" -> StrWsProg [] x.g = "emptyws" -> EmptyWsProg
-    [] x.g = "map" -> MapProg [] x.g = "mapsz" -> MapSzProg [] x.g = "mapelems" -> MapElemsProg [] x.g = "bytes" -> BytesProg [] x.g = "ptr" -> PtrProg [] x.g = "drop" -> DropProg
+    [] x.g = "map" -> MapProg [] x.g = "mapsz" -> MapSzProg [] x.g = "mapelems" -> MapElemsProg [] x.g = "sortkey" -> SortKeyProg [] x.g = "bytes" -> BytesProg [] x.g = "ptr" -> PtrProg [] x.g = "drop" -> DropProg
 M1(k, v) == MapV(<< <<k, v>> >>)
 EnvOf2(x) ==
   CASE x.g = "member" -> << <<A, Arr(<<IntV(1), IntV(2), IntV(3)>>)>>, <<X, IntV(x.xv)>> >>
@@ -190,6 +194,9 @@ EnvOf2(x) ==
     [] x.g = "map" -> << <<M, MapV(<< <<JJ, IntV(4)>>, <<KK, IntV(1)>> >>)>> >>
     [] x.g = "mapsz" -> << <<M, MapV(<< <<KK, IntV(1)>>, <<B_size, Nil>> >>)>> >>
     [] x.g = "mapelems" -> << <<A, Arr(<<MapV(<< <<JJ, IntV(4)>>, <<KK, IntV(2)>> >>), M1(KK, IntV(1)), M1(B_size, IntV(7))>>)>> >>
+    [] x.g = "sortkey" ->
+         LET kv == IF x.ty = 1 THEN <<Str(<<98>>), Nil, Str(<<97>>), Str(<<99>>)>> ELSE <<IntV(2), Nil, IntV(1), IntV(3)>>
+         IN  << <<A, Arr([n \in 1..4 |-> MapV(<< <<JJ, IntV(n)>>, <<KK, kv[n]>> >>)])>> >>
     [] x.g = "bytes" -> << <<S0, Str(<<104, 195, 169, 108, 108, 111>>)>> >>
     [] x.g = "ptr" -> << <<M, M1(PP, Str(<<113>>))>>, <<PP, Str(<<118>>)>> >>
     [] x.g = "drop" -> << <<A, Arr(<<M1(KK, IntV(1)), M1(KK, Str(<<118>>))>>)>>, <<<<102>>, Bool(FALSE)>>, <<<<108>>, Arr(<<Str(<<98>>), Str(<<97>>)>>)>>,
@@ -210,6 +217,7 @@ ReprOf(x) ==
     [] x.g = "map" -> H("m", x.r) @@ (IF x.r # "mapint" THEN H("m/k", x.er) ELSE <<>>)
     [] x.g = "mapsz" -> H("m", x.r)
     [] x.g = "mapelems" -> H("a", x.r) @@ H("a/0", x.e0) @@ H("a/1", x.e1) @@ H("a/2", x.e0)
+    [] x.g = "sortkey" -> H("a/0/k", x.h0) @@ H("a/1/k", x.h1) @@ H("a/2/k", x.h2) @@ H("a/3/k", x.h0)
     [] x.g = "bytes" -> H("s", x.r)
     [] x.g = "ptr" -> H("p", x.r) @@ H("m/p", x.mr)
     [] x.g = "drop" -> DH("a", x.bits, 1) @@ DH("a/0", x.bits, 2) @@ DH("a/1", x.bits, 3) @@ DH("a/0/k", x.bits, 4) @@ DH("x", x.bits, 5)
